@@ -395,7 +395,7 @@ def m_mem_swap(ex, n, a, f):
     return UNIT
 
 
-@model(r'^std::mem::drop::<', r'^core::mem::drop::<', r'^std::ptr::drop_in_place::<')
+@model(r'^std::mem::drop::<', r'^core::mem::drop::<', r'^std::ptr::drop_in_place::<', r'^<std::boxed::Box<.*> as std::ops::Drop>::drop$')   # the last: the box a value was moved out of (`*b`) is freed
 def m_drop(ex, n, a, f):
     return UNIT
 
